@@ -84,7 +84,7 @@ theorem step_inv (s : State) (g : Ghost) (op : Op) (h : Inv s g) : Inv (step s o
   cases op with
   | start =>
     have ⟨t1, t2, t3⟩ := takeAcks_spec s
-    simp only [step, stepWith, start, gstep]
+    simp only [step, stepWith, start, startWith, gstep]
     by_cases hc : s.connected = true
     · simp only [hc, if_true]
       simp only [t2, t3, inflight_append, inflight, List.count_append, t1, List.append_nil, List.count_nil]
@@ -145,7 +145,7 @@ and leaves nothing pending. -/
 theorem start_takes_all (s : State) (hc : s.connected = true) :
     (step s .start).1 = .sent s.nextId (if s.pending.isEmpty then none else some s.pending) ∧
     (step s .start).2.pending = [] := by
-  simp [step, stepWith, start, takeAcks, hc]
+  simp [step, stepWith, start, startWith, takeAcks, hc]
 
 /-- **acknowledgements of a failed request are queued again**, behind what was received meanwhile -/
 theorem fail_requeues (s : State) (id : Nat) (k : FailKind) (f : Flight) (h : findFlight s.flights id = some f) :
@@ -157,7 +157,7 @@ theorem fail_requeues (s : State) (id : Nat) (k : FailKind) (f : Flight) (h : fi
 theorem start_unconnected_keeps (s : State) (hc : s.connected = false) :
     (step s .start).1 = .retErr BadNotConnected ∧ (step s .start).2.pending = s.pending := by
   have ⟨t1, t2, _⟩ := takeAcks_spec s
-  simp only [step, stepWith, start, hc]
+  simp only [step, stepWith, start, startWith, hc]
   refine ⟨by simp, ?_⟩
   simp only [Bool.false_eq_true, if_false, (requeue_pending _ _).1, t1, t2, List.nil_append]
 
@@ -174,10 +174,103 @@ theorem flush (s : State) (g : Ghost) (h : Inv s g) (hq : s.flights = []) (hc : 
     (run s g [.start, .complete s.nextId sub seq more ka]).2.done.count a = g.received.count a := by
   have ha := h a
   have ⟨t1, t2, t3⟩ := takeAcks_spec s
-  simp only [run, runWith, stepWith, start, hc, if_true, gstep, completeWith, hq, t3, List.nil_append, findFlight,
+  simp only [run, runWith, stepWith, start, startWith, hc, if_true, gstep, completeWith, hq, t3, List.nil_append, findFlight,
     beq_self_eq_true, List.count_append, t1]
   simp only [hq, inflight, List.count_nil] at ha
   omega
+
+/-! ### The subscription event loop -/
+
+theorem startWith_inv (b : Bool) (s : State) (g : Ghost) (h : Inv s g) : Inv (startWith b s).2 g := by
+  intro a
+  have ha := h a
+  have ⟨t1, t2, t3⟩ := takeAcks_spec s
+  simp only [startWith]
+  by_cases hc : s.connected = true
+  · simp only [hc, if_true]
+    simp only [t2, t3, inflight_append, inflight, List.count_append, t1, List.append_nil, List.count_nil]
+    omega
+  · simp only [hc]
+    have ⟨r1, r2⟩ := requeue_pending (takeAcks s).2 (takeAcks s).1
+    simp only [Bool.false_eq_true, if_false, r1, r2, t1, t2, t3, List.nil_append]
+    omega
+
+theorem loopStart_inv (s : State) (g : Ghost) (h : Inv s g) : Inv (loopStart s).2 g := by
+  have := startWith_inv true s g h
+  unfold loopStart
+  split <;> simpa [*] using this
+
+/-- conservation is kept by every stimulus of the event loop: external trigger, … -/
+theorem loopTrigger_inv (s : State) (g : Ghost) (h : Inv s g) : Inv (loopTrigger s).2 g :=
+  loopStart_inv s g h
+
+/-- … a PublishResponse (with the immediate follow-up publish when `more_notifications`), … -/
+theorem loopComplete_inv (s : State) (g : Ghost) (id sub seq : Nat) (more ka : Bool) (evs : List Ev) (s' : State)
+    (h : Inv s g) (hr : loopComplete s id sub seq more ka = some (evs, s')) :
+    Inv s' (gstep s g (.complete id sub seq more ka)) := by
+  have h1 : Inv (complete s id sub seq more ka).2 (gstep s g (.complete id sub seq more ka)) :=
+    step_inv s g (.complete id sub seq more ka) h
+  unfold loopComplete at hr
+  cases hf : findLoopFlight s id with
+  | none => simp [hf] at hr
+  | some f =>
+    simp only [hf] at hr
+    cases more with
+    | false =>
+      simp only [Bool.false_eq_true, if_false, Option.some.injEq, Prod.mk.injEq] at hr
+      rw [← hr.2]; exact h1
+    | true =>
+      simp only [if_true, Option.some.injEq, Prod.mk.injEq] at hr
+      rw [← hr.2]; exact loopStart_inv _ _ h1
+
+/-- … and a failure (with the immediate re-publish after a timeout). -/
+theorem loopFail_inv (s : State) (g : Ghost) (id : Nat) (k : FailKind) (evs : List Ev) (s' : State)
+    (h : Inv s g) (hr : loopFail s id k = some (evs, s')) : Inv s' g := by
+  have h1 : Inv (fail s id k).2 g := step_inv s g (.fail id k) h
+  unfold loopFail at hr
+  cases hf : findLoopFlight s id with
+  | none => simp [hf] at hr
+  | some f =>
+    simp only [hf] at hr
+    split at hr
+    · simp only [Option.some.injEq, Prod.mk.injEq] at hr
+      rw [← hr.2]; exact loopStart_inv _ _ h1
+    · simp only [Option.some.injEq, Prod.mk.injEq] at hr
+      rw [← hr.2]; exact h1
+
+/-- **a timed-out publish is retried at once and carries everything that is owed**: when the
+channel is connected and the loop is below its limit, the failure is reported, the very next
+request contains all pending acknowledgements followed by those of the failed request, and nothing
+stays pending. -/
+theorem timeout_resends_at_once (s : State) (id : Nat) (f : Flight) (hf : findFlight s.flights id = some f)
+    (hl : f.viaLoop = true) (hc : s.connected = true)
+    (hcap : (removeFlight s.flights id).length < s.maxPublish) :
+    (loopFail s id .timeout).map (fun r => (r.1, r.2.pending)) =
+      some ([.failed BadTimeout,
+             .sent s.nextId (if (s.pending ++ acksOf f.taken).isEmpty then none else some (s.pending ++ acksOf f.taken))],
+            []) := by
+  have hfl : findLoopFlight s id = some f := by simp [findLoopFlight, hf, hl]
+  have ⟨r1, r2⟩ := requeue_pending { s with flights := removeFlight s.flights id } f.taken
+  have hfail : (fail s id .timeout).2 = requeue { s with flights := removeFlight s.flights id } f.taken := by
+    simp [fail, hf]
+  have hconn : (fail s id .timeout).2.connected = true := by
+    rw [hfail]; cases f.taken <;> simpa [requeue] using hc
+  have hmax : (fail s id .timeout).2.maxPublish = s.maxPublish := by
+    rw [hfail]; cases f.taken <;> simp [requeue]
+  have hnext : (fail s id .timeout).2.nextId = s.nextId := by
+    rw [hfail]; cases f.taken <;> simp [requeue]
+  have hpend : (fail s id .timeout).2.pending = s.pending ++ acksOf f.taken := by rw [hfail]; exact r1
+  have hflights : (fail s id .timeout).2.flights = removeFlight s.flights id := by rw [hfail]; exact r2
+  unfold loopFail
+  simp only [hfl, FailKind.status, hflights, hmax, hcap, and_self, if_true, loopStart, startWith, takeAcks,
+    hconn, hpend, hnext, Option.map_some]
+
+/-- non-vacuity: the loop publishes on a trigger, follows `more_notifications`, retries a timeout -/
+example :
+    let s1 := (loopTrigger { init with maxPublish := 2 }).2
+    (loopComplete s1 0 1 7 true false).map (·.1) = some [.publish, .sent 1 (some [(1, 7)])] ∧
+    ((loopComplete s1 0 1 7 true false).bind fun r => (loopFail r.2 1 .timeout).map (·.1))
+      = some [.failed BadTimeout, .sent 2 (some [(1, 7)])] := by decide
 
 /-! ### Non-vacuity -/
 
@@ -188,7 +281,7 @@ acknowledgement is sent again, the successful one's is not -/
 example :
     let ops := [Op.start, .complete 0 1 10 false false, .start, .complete 1 1 11 false false, .start, .start,
                 .complete 3 1 12 false false, .fail 2 .timeout, .start]
-    (run init ⟨[], []⟩ ops).1.flights = [⟨4, some [(1, 12), (1, 11)]⟩] ∧
+    (run init ⟨[], []⟩ ops).1.flights = [{ id := 4, taken := some [(1, 12), (1, 11)] }] ∧
     (run init ⟨[], []⟩ ops).2 = ⟨[(1, 10), (1, 11), (1, 12)], [(1, 10)]⟩ := by decide
 
 /-! ### The defect of the pinned source (repaired by the `fix:` commit) -/
